@@ -13,15 +13,17 @@ LEVEL_TEXT = ("Bounded verification by symbolic execution of the real assembly a
               "qualifier names; when the product is re-used as a module with arbitrary spans, every surviving inner source "
               "feature lies inside the outer one and still denotes a verbatim stretch of the plasmid it names.  Bounded claim.")
 LEVEL_NOTE = ("Bounds: 1-2 modules + vector, record length n<=10 for the element with symbolic spans (others concrete), two "
-              "levels. The GenBank write/read clause (Biopython's writer/parser and file I/O) cannot be executed symbolically and "
-              "is outside the claim. Trusted: z3, CPython, symx models.")
-LEVEL_NOTE_EXTRA = 'a product whose id equals an input id or the default id; the same objects assembled twice; a superfluous module.'
+              "levels. GenBank clause: what moclo must provide for it (molecule type, circular topology, every feature located inside "
+              "the product, requested id/name) is decided symbolically; the write/read itself (Biopython's writer/parser) cannot be "
+              "executed symbolically and is exercised only on the concrete samples and replays that run on the real stack - sampling, "
+              "not part of the solver's claim. Trusted: z3, CPython, symx models.")
+LEVEL_NOTE_EXTRA = 'a product whose id equals an input id or the default id; the same objects assembled twice; a superfluous module; eleven shapes of requested id/name; GenBank pre-conditions.'
 TECHNIQUE = "bounded symbolic execution of the real Python source (symx) with z3 on symbolic match spans; position-tag letters; replay on the real stack"
 EXPLANATION = "tiling and verbatim-origin of the generated source features are arithmetic statements over symbolic spans decided by z3"
 ASSUMPTIONS = [
     "match spans arbitrary with s1<=e1<=e2<=e3<=s1+n, s1<n for one element at a time; overhangs given",
     "letters are pairwise distinct tags, distinct across plasmids",
-    "GenBank serialisation not covered",
+    "GenBank serialisation itself (Bio.SeqIO) is not symbolic: only its pre-conditions on the product are; the real write/read runs on concrete samples",
 ]
 
 
@@ -172,6 +174,59 @@ def ob_provenance(ctx):
     return True
 
 
+def ob_genbank(ctx):
+    """the product is a complete GenBank record.  What moclo must provide for that is decided symbolically on both
+    stacks (molecule type, circular topology, every feature located inside the product, a legal id); the write/read
+    itself (Biopython's serialiser and parser) only runs on the real stack, i.e. in the concrete differential runs and
+    in replays."""
+    st = ctx.stack
+    P = ctx.P
+    m, n = P["m"], P["n"]
+    Mod, Vec = sliced_classes(st)
+    O = ["AA", "CC", "GG", "TC"]
+    ents = []
+    for i in range(m + 1):
+        data = ctx.mk.seq("d%d" % i, n, "ACGT")
+        sp = sym_spans(ctx, "e%d_" % i, n) if i == P["sym"] else (1, 2, n - 2, n - 1)
+        parts = mk_parts(ctx, "f%d" % i, 1, n) if i == P["sym"] else [(2, 3, 1)]
+        feat = build_feature(st, parts, "CDS", {"label": ["cds%d" % i], "note": ["a note"]}, fid="F%d" % i)
+        rec = st.record.CircularRecord(st.Seq(data), id="in%d" % i, name="in%d" % i, features=[feat],
+                                       annotations={"topology": "circular", "molecule_type": "DNA"})
+        cls = Mod if i < m else Vec
+        ents.append(cls(rec, st.Seq(O[i] if i < m else O[m]), st.Seq(O[i + 1] if i < m else O[0]), module_spans(*sp)))
+    prod = ents[m].assemble(*ents[:m], id=P["pid"], name=P["pname"])
+    ctx.observe("prod", prod)
+    N = slen(sdata(prod.seq))
+    ann = prod.annotations
+    ctx.require(isinstance(ann.get("molecule_type"), str) and "DNA" in ann["molecule_type"], "no-molecule-type")
+    ctx.require(isinstance(ann.get("topology"), str) and ann["topology"].lower() == "circular", "topology")
+    ctx.require(prod.id == P["pid"] and prod.name == P["pname"], "id-or-name")
+    for f in prod.features:
+        ctx.require(f.location is not None, "feature-without-location")
+        for (a, b, stx) in parts_of(f):
+            ctx.require(And(0 <= ival(a), ival(a) <= ival(b), ival(b) <= N), "feature-outside-the-product")
+    ctx.witness("inherited-feature", any(f.type == "CDS" for f in prod.features))
+    ctx.witness("empty-product", Eq(N, 0))
+    if st.kind == "real" and N > 0:
+        import io
+        from Bio import SeqIO
+
+        buf = io.StringIO()
+        SeqIO.write([prod], buf, "genbank")
+        back = SeqIO.read(io.StringIO(buf.getvalue()), "genbank")
+        ctx.require(str(back.seq).upper() == str(prod.seq).upper(), "genbank-round-trip:sequence")
+        ctx.require(back.annotations.get("topology") == "circular", "genbank-round-trip:topology")
+        ctx.require(back.id.split(".")[0] == P["pid"].split(".")[0] and back.name == P["pname"], "genbank-round-trip:id-or-name")
+        def image(f):
+            # GenBank has no notation for "no strand": strandless locations are read back as forward ones
+            return (f.type, [(int(p.start), int(p.end), -1 if p.strand == -1 else 1) for p in f.location.parts])
+
+        want = sorted(image(f) for f in prod.features)
+        got = sorted(image(f) for f in back.features)
+        ctx.require(want == got, "genbank-round-trip:features %s vs %s" % (want, got))
+    return True
+
+
 def ob_unused_named(ctx):
     """an assembly that succeeds with a superfluous module (UnusedModules warning) still names every supplied module"""
     st = ctx.stack
@@ -217,6 +272,13 @@ def obligations(tier, seed):
         obs.append(Ob("requested id and name of every shape m=%d" % m, ob_provenance,
                       dict(m=m, sym=-1, n=9, ids=idsets[0][:m] + [idsets[0][2]], pid="?", pname="?", level2=False, labels=True),
                       samples=len(LABELS), cost=300, group="labels"))
+    for m in (1, 2):
+        for sym in range(m + 1):
+            if tier == "quick" and m == 2 and sym == 1:
+                continue
+            obs.append(Ob("GenBank-complete product m=%d symbolic spans and feature in element %d" % (m, sym), ob_genbank,
+                          dict(m=m, sym=sym, n=tier_pick(tier, 8, 11), pid="pMC_01.1", pname="pMC_01"), samples=10,
+                          cost=6000, group="genbank", expect_witness=("inherited-feature",)))
     for spare_first in (False, True):
         obs.append(Ob("superfluous module still named (spare %s)" % ("first" if spare_first else "last"), ob_unused_named,
                       dict(spare_first=spare_first), samples=4, cost=100))
